@@ -3,6 +3,7 @@ import PsiProofs.C18
 import PsiProofs.Helper.C18Ext_Search
 import PsiProofs.Helper.C18Ext_Bits
 import PsiProofs.Helper.C18Ext_Pad
+import PsiProofs.Helper.C18Ext_Bisect
 /-!
 EXT18 — theorems about helpers of util.py that property C18 does not name (NOT part of `./check C18`;
 registry `lean/registry/EXT18.txt`).
@@ -167,6 +168,42 @@ example : overlap1 [(1, 3)] (1, 3) = false ∧ overlap1 [(1, 3)] (1, 2) = false 
 example : overlap1 [(0, 9), (2, 3)] (1, 5) = false ∧
     (∃ p ∈ [((0 : Int), (9 : Int)), (2, 3)], p.1 < (1 : Int) ∧ (5 : Int) ≤ p.2) := by
   refine ⟨by decide, (0, 9), by simp, by decide, by decide⟩
+
+/-! ### the binary search itself -/
+
+/-- on a column sorted in non-decreasing order the binary search (side left) returns the number of entries `< t` —
+the reading of `np.searchsorted` used by `contain1` / `overlap1`. -/
+theorem bisectLeft_eq_countLt (col : List Int) (t : Int) (hs : col.Pairwise (· ≤ ·)) :
+    bisectLeft col t = countLt col t := bisectLeft_eq_countLt' col t hs
+
+theorem cols_sorted {a : List (Int × Int)} (hs : a.Pairwise (fun p r => p.1 ≤ r.1 ∧ p.2 ≤ r.2)) :
+    (a.map (·.1)).Pairwise (· ≤ ·) ∧ (a.map (·.2)).Pairwise (· ≤ ·) := by
+  constructor <;> rw [List.pairwise_map]
+  · exact hs.imp (fun h => h.1)
+  · exact hs.imp (fun h => h.2)
+
+/-- `epochs_contain` computed by binary search, on a table with both columns sorted and `start ≤ end`. -/
+theorem epochs_contain_bisect_iff (e : List (Int × Int)) (t : Int)
+    (hs : e.Pairwise (fun p r => p.1 ≤ r.1 ∧ p.2 ≤ r.2)) (h : ∀ p ∈ e, p.1 ≤ p.2) :
+    contain1B e t = true ↔ ∃ p ∈ e, p.1 < t ∧ t ≤ p.2 := by
+  rw [← epochs_contain_iff e t h]
+  simp only [contain1B, contain1, bisectLeft_eq_countLt _ _ (cols_sorted hs).1,
+    bisectLeft_eq_countLt _ _ (cols_sorted hs).2]
+
+/-- `epochs_overlap` computed by binary search. -/
+theorem epochs_overlap_bisect_iff (a : List (Int × Int)) (q : Int × Int)
+    (hs : a.Pairwise (fun p r => p.1 ≤ r.1 ∧ p.2 ≤ r.2)) :
+    overlap1B a q = true ↔
+      (∃ p ∈ a, p.1 < q.1 ∧ q.2 ≤ p.2) ∨ (∃ p ∈ a, q.1 ≤ p.1 ∧ p.2 < q.2) := by
+  rw [← epochs_overlap_iff a q hs]
+  simp only [overlap1B, overlap1, bisectLeft_eq_countLt _ _ (cols_sorted hs).1,
+    bisectLeft_eq_countLt _ _ (cols_sorted hs).2]
+
+example : ([1, 3, 3, 7] : List Int).Pairwise (· ≤ ·) ∧ bisectLeft [1, 3, 3, 7] 3 = 1 ∧ bisectLeft [1, 3, 3, 7] 4 = 3 ∧
+    bisectLeft [1, 3, 3, 7] 8 = 4 := by decide
+example : contain1B [(1, 3), (5, 8)] 6 = true ∧ overlap1B [(1, 3), (5, 8)] (4, 9) = true := by decide
+/-- sortedness is needed: on an unsorted column the search is not the count. -/
+example : bisectLeft [7, 7, 8, 7, 8, 1, 1] 6 = 0 ∧ countLt [7, 7, 8, 7, 8, 1, 1] 6 = 2 := by decide
 
 /-! ### `bin_array`, `int_to_TTL` -/
 
